@@ -442,6 +442,8 @@ func explains(field string, classes map[string]bool) string {
 
 type rtCase struct {
 	Text string `json:"text"`
+	// Expect "rejected": a regression case of a repaired parser defect — the statement must not be accepted
+	Expect string `json:"expect,omitempty"`
 }
 
 type rtImpl struct {
@@ -502,7 +504,13 @@ func judgeRT(section string, c rtCase, im rtImpl, a1, a2 string) string {
 		res.Mismatch(vh.Mismatch{Section: section, Function: "lql.ParseLql on a TRUNCATE statement vs the direct parser (Logrange.Lql.directTruncate)", Input: c, Impl: implS, Model: m1.td})
 	}
 	if !im.accepted {
+		if c.Expect == "rejected" {
+			return "rejected as expected"
+		}
 		return "rejected"
+	}
+	if c.Expect == "rejected" {
+		res.Dist(res.Section(section, "", ""), "accepted although the case expects rejection")
 	}
 	if eq && strings.HasPrefix(m1.td, "same") && len(m1.td) == 6 && len(m1.classes) == 0 && !im.unstable && m1.td != "same11" {
 		// the decidable hypotheses of token_roundtrip_truncate / print_parse_truncate_partial on the parser's image
@@ -562,6 +570,11 @@ func judgeRT(section string, c rtCase, im rtImpl, a1, a2 string) string {
 		res.SpecFail(vh.SpecFailure{Section: section, Kind: "meaning-changed", Input: c, Impl: fmt.Sprintf("printed %q; differing: %v", im.printed, im.diff), Spec: "same meaning after print and re-parse",
 			Model: modelR, ImplEqModel: eq, Finding: fid, What: "an accepted statement means something else after print and re-parse: " + strings.Join(im.diff, ",")})
 		return "meaning-changed " + fid
+	}
+	if c.Expect == "rejected" {
+		res.SpecFail(vh.SpecFailure{Section: section, Kind: "reparse-error", Input: c, Impl: fmt.Sprintf("accepted, printed %q", im.printed), Spec: "rejected", ImplEqModel: eq,
+			What: "a statement the repaired parser must reject is accepted"})
+		return "accepted-unexpectedly"
 	}
 	return "roundtrip-ok"
 }
